@@ -6,6 +6,8 @@ the consistency relation grade = standard/time (or mark/standard) is evaluated o
 the public accessors return; a spelling monitor keyed by the canonical query compares all
 gender spellings and letter cases; a monotonicity monitor orders the grades of one query.
 """
+import decimal
+import fractions
 import json
 import math
 import os
@@ -75,7 +77,7 @@ class Monitor(object):
         if not nn:
             return ('out', 'row-all-null')
         first = ages[nn[0]]
-        if not isinstance(age, (int, float)) or age < first or age > ages[-1] + 20:
+        if not isinstance(age, (int, float, decimal.Decimal, fractions.Fraction)) or age < first or age > ages[-1] + 20:
             return ('out', 'age-outside')
         # interior / trailing nulls and zero factors: the table itself does not cover these ages
         lo = max(i for i, a in enumerate(ages) if a <= age) if age >= ages[0] else 0
@@ -405,6 +407,12 @@ def run_shard(ctx, spec):
                 attach.call(a.wma_world_best, gs, e2, year=y)
                 for age in ages_for(first, last, ctx.tier):
                     attach.call(a.wma_age_factor, gs, age, e2, year=y)
+                    if gs in ('m', 'f') and (age != int(age) or int(age) % 10 == 0):
+                        # an age is a number: a Decimal or a Fraction from a date subtraction is as good as a float
+                        for alt in (decimal.Decimal(str(age)), fractions.Fraction(age)):
+                            attach.call(a.wma_age_factor, gs, alt, e2, year=y)
+                            attach.call(a.wma_age_grade, gs, alt, e2, best * 1.1, year=y)
+                            ctx.count('eval.age-as-Decimal-or-Fraction')
                     if isinstance(age, int) and gs in ('m', 'f', 'F', 'M'):
                         # a whole age that is not a Python int (14.0 from a spreadsheet or a subtraction of floats)
                         attach.call(a.wma_age_factor, gs, float(age), e2, year=y)
